@@ -85,7 +85,17 @@ theorem cloneNode_spec (f : Forest) (inv : f.Inv) (node : Nat) (src : HTree)
     (hsrc : f.get? node = some src) :
     ∃ f', f.cloneNode node = (f', some (copyRoot f.consolidation f.next src).1.handle) ∧
       f'.roots = f.roots ++ [(copyRoot f.consolidation f.next src).1] ∧
-      f'.next = (copyRoot f.consolidation f.next src).2 ∧ SameFlags f f' := by
+      f'.next = (copyRoot f.consolidation f.next src).2 ∧ SameFlags f f' ∧
+      (handlesList f.roots ++ handles (copyRoot f.consolidation f.next src).1).Nodup := by
+  have hleaf : ∀ v : Value, (handlesList f.roots ++ handles (.node f.next v [])).Nodup := by
+    intro v
+    simp only [handles, handlesList]
+    rw [List.nodup_append]
+    refine ⟨inv.nodup, by simp, ?_⟩
+    intro a ha b hb
+    simp only [List.mem_singleton] at hb
+    have := inv.below a ha
+    omega
   have hvalid := inv.valid_get hsrc
   unfold Forest.cloneNode
   rw [hsrc]
@@ -96,7 +106,7 @@ theorem cloneNode_spec (f : Forest) (inv : f.Inv) (node : Nat) (src : HTree)
       have init := Cloning.init inv .document
       obtain ⟨g2, h2, cl2, hn2, hf2⟩ := cloneKids_spec _ ks _ f.roots [] f.next .document [] init
         (validTree_kids _ h _ ks hvalid) (pending_init _ h _ ks hvalid)
-      refine ⟨g2, ?_, ?_, ?_, ?_⟩
+      refine ⟨g2, ?_, ?_, ?_, hf2, ?_⟩
       · simp only [HTree.value, Forest.newDocument, HTree.kids]
         have : (f.newNode .document) = ((f.newNode .document).1, f.next) := rfl
         rw [this]
@@ -104,7 +114,11 @@ theorem cloneNode_spec (f : Forest) (inv : f.Inv) (node : Nat) (src : HTree)
         rfl
       · rw [cl2.roots]; rfl
       · rw [hn2]; rfl
-      · exact hf2
+      · have := cl2.nodup
+        have e1 : (f.newNode Value.document).1.consolidation = f.consolidation := rfl
+        have e2 : (f.newNode Value.document).1.next = f.next + 1 := rfl
+        rw [e1, e2] at this
+        simpa [frameHandles, copyRoot, handles] using this
     | element e =>
       have init := Cloning.init inv (.element e)
       obtain ⟨g2, h2, cl2, hn2, hf2⟩ := cloneInto_spec _ (.node h (.element e) ks) _ f.roots []
@@ -122,7 +136,7 @@ theorem cloneNode_spec (f : Forest) (inv : f.Inv) (node : Nat) (src : HTree)
         rw [top_get? g2 f.roots f.next _ _ hr htop]
         simp [HTree.kids, HTree.value, Value.isNormal, Value.category, HTree.handle]
       refine ⟨g2.withRoots (f.roots ++ [.node (f.next + 1) (.element e)
-          (copyKids f.consolidation [] (f.next + 2) ks).1]), ?_, rfl, ?_, hf2⟩
+          (copyKids f.consolidation [] (f.next + 2) ks).1]), ?_, rfl, ?_, hf2, ?_⟩
       · simp only [HTree.value, Forest.newElement]
         have : (f.newNode (.element e)) = ((f.newNode (.element e)).1, f.next) := rfl
         rw [this]
@@ -131,10 +145,15 @@ theorem cloneNode_spec (f : Forest) (inv : f.Inv) (node : Nat) (src : HTree)
       · show g2.next = _
         rw [hn2]
         simp [copyInto, copyRoot, Forest.newNode]
-    | text s => exact ⟨_, rfl, rfl, rfl, ⟨rfl, rfl, rfl⟩⟩
-    | pi t d => exact ⟨_, rfl, rfl, rfl, ⟨rfl, rfl, rfl⟩⟩
-    | comment s => exact ⟨_, rfl, rfl, rfl, ⟨rfl, rfl, rfl⟩⟩
-    | «attribute» a s => exact ⟨_, rfl, rfl, rfl, ⟨rfl, rfl, rfl⟩⟩
-    | «namespace» p ns => exact ⟨_, rfl, rfl, rfl, ⟨rfl, rfl, rfl⟩⟩
+      · have hnd := cl2.nodup
+        simp only [frameHandles, List.nil_append, handlesList, List.append_nil] at hnd
+        refine List.Nodup.sublist ?_ hnd
+        simp only [copyRoot]
+        exact List.Sublist.append (List.Sublist.refl _) (List.sublist_cons_self _ _)
+    | text s => exact ⟨_, rfl, rfl, rfl, ⟨rfl, rfl, rfl⟩, hleaf _⟩
+    | pi t d => exact ⟨_, rfl, rfl, rfl, ⟨rfl, rfl, rfl⟩, hleaf _⟩
+    | comment s => exact ⟨_, rfl, rfl, rfl, ⟨rfl, rfl, rfl⟩, hleaf _⟩
+    | «attribute» a s => exact ⟨_, rfl, rfl, rfl, ⟨rfl, rfl, rfl⟩, hleaf _⟩
+    | «namespace» p ns => exact ⟨_, rfl, rfl, rfl, ⟨rfl, rfl, rfl⟩, hleaf _⟩
 
 end XotModel
